@@ -61,6 +61,7 @@ type run struct {
 	cl      *mtproto.MTProto
 	callers []*callerState
 	rx      string // actor name of the receive loop ("" until seen)
+	inRecv  map[string]bool // callers that passed "prerecv": blocked (or about to block) in `<-resp`
 	lock    string // actor holding the send lock
 	reads   int    // top-level frames the receive loop has taken
 	base    int64  // msg ids are shown to the model minus base
@@ -101,6 +102,13 @@ func (r *run) start(idx, ncallers int) {
 	r.t0 = time.Now()
 	r.base = (r.t0.Unix() - 2) << 32
 	r.sc = csched.New()
+	r.inRecv = map[string]bool{}
+	// a caller about to block in its channel receive is not held back: whoever the receive loop
+	// really sends to must be able to take the value, otherwise a misrouted result would only
+	// ever show up as a stall of the scheduler instead of "caller j got caller i's answer"
+	r.sc.PassThrough = func(actor, point string) bool {
+		return point == "prerecv" && strings.HasPrefix(actor, "c")
+	}
 	mtproto.VerifYieldHook = r.sc.Hook
 	srv, err := refserver.New(refserver.Options{Seed: uint64(idx) + 1})
 	if err != nil {
@@ -271,11 +279,7 @@ func (r *run) enabled(actor string) bool {
 		return isRx && r.srv.Sent() > r.reads
 	case "deliver", "notify":
 		o := r.ownerOf(p.ID)
-		if o == nil {
-			return false
-		}
-		q := r.sc.Parked(o.name)
-		return q != nil && q.Point == "prerecv"
+		return o != nil && r.inRecv[o.name]
 	}
 	return false
 }
@@ -300,7 +304,8 @@ func (r *run) onArrival(actor string, ar csched.Arrival) []string {
 	items = append(items, show+"@"+ar.Point)
 	switch ar.Point {
 	case "idgen", "prelock":
-		if c != nil && c.active != nil {
+		delete(r.inRecv, actor) // (a retry marker sends the caller back into the send path)
+		if c != nil && c.active != nil && ar.ID != 0 {
 			c.active.msgID = ar.ID
 		}
 	case "written":
@@ -338,7 +343,11 @@ func (r *run) onArrival(actor string, ar csched.Arrival) []string {
 		if r.lock == actor {
 			r.lock = ""
 		}
+		if c != nil {
+			r.inRecv[actor] = true
+		}
 	case "done":
+		delete(r.inRecv, actor)
 		if r.lock == actor {
 			r.lock = ""
 		}
@@ -398,14 +407,26 @@ func (r *run) doStep(actor string) {
 	clk := "0"
 	switch p.Point {
 	case "deliver", "notify":
-		o := r.ownerOf(p.ID)
-		r.sc.Release(o.name)
 		r.sc.Release(actor)
 		a1 := r.await(actor)
 		items = append(items, r.onArrival(actor, a1)...)
-		// the receiver either returns or (retry marker, migrate) re-enters the send path
-		a2 := r.await(o.name)
-		items = append(items, r.onArrival(o.name, a2)...)
+		// whoever is blocked on the channel the receive loop really used takes the value; it
+		// either returns or (retry marker, migrate) re-enters the send path
+		var waiting []string
+		for _, c := range r.callers {
+			if r.inRecv[c.name] {
+				waiting = append(waiting, c.name)
+			}
+		}
+		a2, err := r.sc.AwaitAny(waiting, watchdog)
+		if err != nil {
+			st := ""
+			if e, ok := err.(*csched.ErrStuck); ok {
+				st = e.Stack
+			}
+			panic(stuck{what: "receiver-of-" + actor, stack: st})
+		}
+		items = append(items, r.onArrival(a2.Actor, a2)...)
 	default:
 		if p.Point == "prelock" {
 			r.lock = actor
